@@ -4,7 +4,8 @@
 pid=$1; k=$2; full=$3
 src=/tmp/seed/out_$pid/$k
 W=$(mktemp -d /tmp/seedrun/w_${pid}_${k}_XXXX)
-rsync -a --exclude .git /repo/ $W/
+git -C /repo archive HEAD | tar -x -C $W
+cp /repo/wntr/sim/aml/_evaluator*.so $W/wntr/sim/aml/; cp /repo/wntr/sim/network_isolation/_network_isolation*.so $W/wntr/sim/network_isolation/
 cd $W
 PYTHONPATH=$W /venv/bin/python $src/demo.py > $W/demo_unchanged.log 2>&1; r0=$?
 patch -p1 -s < $src/patch.diff > $W/patch.log 2>&1; rp=$?
